@@ -24,6 +24,13 @@ CHECKS = {
             "heads must raise LocalProtocolError with nothing written.",
             "Own decoders are the reference; header-name case on HTTP/1.1 and connection-specific headers are outside the oracle.",
             "3 C03"),
+    "C10": ("exploration",
+            "exhaustive configuration matrix + Hypothesis request histories over near-miss origins; oracle = establishment chain of the pipe that carried each token",
+            "All 1080 cells of scheme x port form x proxy mode x http1/http2 x ALPN outcome x sni (sync and async) and sampled sequential "
+            "histories over origins differing in one component: connect target / CONNECT target / SOCKS command, TLS layers, SNI, ALPN offer "
+            "and spoken protocol are read off the simulated network's trace and the peers' own parsers.",
+            "TLS is a marker layer; tunnel SNI override and the https-proxy hop's server name are outside the oracle.",
+            "3 C10"),
     "C16": ("exploration",
             "exhaustive configuration matrix over the op trace of a simulated backend (timeout argument of every network op) + virtual-clock pool-timeout schedules",
             "Every combination of connect/read/write/pool in {absent, None, 0, value} x 14 connection kinds x 3 request shapes, two requests "
